@@ -8,6 +8,7 @@ mod util;
 mod hist;
 mod iters;
 mod geom;
+mod ops;
 
 use util::*;
 
@@ -29,6 +30,11 @@ fn main() {
                 7 => hist::gen_c07(&mut out, tier, &mut rng),
                 2 => geom::gen_c02(&mut out, tier, &mut rng),
                 3 => geom::gen_c03(&mut out, tier, &mut rng),
+                4 => ops::gen_c04(&mut out, tier, &mut rng),
+                13 => ops::gen_c13(&mut out, tier, &mut rng),
+                14 => ops::gen_c14(&mut out, tier, &mut rng),
+                15 => ops::gen_c15(&mut out, tier, &mut rng),
+                16 | 17 => ops::gen_sort(&mut out, prop, tier, &mut rng),
                 8 | 9 | 10 => iters::generate(&mut out, prop, tier, &mut rng),
                 11 => hist::gen_c11_iter(&mut out, tier, &mut rng),
                 12 => hist::gen_c12_drain(&mut out, tier, &mut rng),
@@ -50,6 +56,7 @@ fn main() {
                     1 | 2 => hist::replay(&mut out, hd[0], hd[1], &inp),
                     3 => iters::replay(&mut out, hd[0], &inp),
                     4 | 5 => geom::replay(&mut out, hd[1], &inp),
+                    6 => ops::replay(&mut out, hd[0], &inp),
                     f => panic!("unknown family {f}"),
                 }
             }
